@@ -146,6 +146,7 @@ type FoundViolation struct {
 	OrigLen     int    `json:"orig_choices"`
 	MinRuns     int    `json:"minimise_runs"`
 	Count       int    `json:"count"`
+	Trace       map[string][]uint32 `json:"trace,omitempty"`
 }
 
 type Result struct {
@@ -192,7 +193,7 @@ func runWorker(bin string, job *Job, gomaxprocs int, extraEnv ...string) (*Resul
 		}
 		return nil, fmt.Errorf("worker %d failed: %v\n%s", job.Worker, err, tail)
 	}
-	if job.Mode == "replay" {
+	if job.Mode == "replay" || job.Mode == "minimise" {
 		return nil, nil
 	}
 	rd, err := os.ReadFile(job.Out)
@@ -429,6 +430,9 @@ func check(prop, tier string) int {
 	nViol := 0
 	var knownHit []string
 	var violLines []string
+	// one representative per fingerprint (lowest scenario/index), minimised in parallel
+	reps := map[string]*FoundViolation{}
+	totals := map[string]int{}
 	for _, k := range keys {
 		vs := m.viol[k]
 		sort.Slice(vs, func(i, j int) bool {
@@ -437,17 +441,69 @@ func check(prop, tier string) int {
 			}
 			return vs[i].Index < vs[j].Index
 		})
-		v := vs[0]
-		total := 0
+		reps[k] = vs[0]
 		for _, x := range vs {
-			total += x.Count
+			totals[k] += x.Count
 		}
-		// remove the other workers' replay files of the same fingerprint
-		for _, x := range vs[1:] {
-			if x.ReplayPath != v.ReplayPath {
-				os.Remove(x.ReplayPath)
+	}
+	{
+		var mwg sync.WaitGroup
+		sem := make(chan struct{}, 16)
+		var mmu sync.Mutex
+		var merr error
+		for _, k := range keys {
+			v := reps[k]
+			v.ReplayPath = filepath.Join(replayDir, fmt.Sprintf("%s-%s-%d-%d.json", v.Property, sanitize(v.Fingerprint), seed, v.Index))
+			raw := map[string]any{"property": v.Property, "fingerprint": v.Fingerprint, "message": v.Message, "scenario": v.Scenario,
+				"tier": tier, "base_seed": seed, "index": v.Index, "run_seed": v.RunSeed, "choices": v.Trace, "events": []string{}}
+			data, _ := json.Marshal(raw)
+			if err := os.WriteFile(v.ReplayPath, data, 0o644); err != nil {
+				trouble("write %s: %v", v.ReplayPath, err)
 			}
+			mwg.Add(1)
+			go func(k string, v *FoundViolation) {
+				defer mwg.Done()
+				sem <- struct{}{}
+				defer func() { <-sem }()
+				out := filepath.Join(b.dir, "min-"+sanitize(k)+".json")
+				budget := 20.0
+				if tier == "thorough" {
+					budget = 60
+				}
+				_, err := runWorker(b.bin, &Job{Mode: "minimise", ReplayFile: v.ReplayPath, Out: out, WallS: budget}, 2)
+				mmu.Lock()
+				defer mmu.Unlock()
+				if err != nil {
+					merr = err
+					return
+				}
+				if data, err := os.ReadFile(out); err == nil {
+					var r struct {
+						MinRuns int `json:"minimise_runs"`
+						Choices int `json:"choices"`
+						Orig    int `json:"orig_choices"`
+					}
+					json.Unmarshal(data, &r)
+					v.MinRuns, v.Choices, v.OrigLen = r.MinRuns, r.Choices, r.Orig
+					if rd, err := os.ReadFile(v.ReplayPath); err == nil {
+						var rf struct {
+							Message string `json:"message"`
+						}
+						if json.Unmarshal(rd, &rf) == nil && rf.Message != "" {
+							v.Message = rf.Message
+						}
+					}
+				}
+			}(k, v)
 		}
+		mwg.Wait()
+		if merr != nil {
+			trouble("minimisation failed: %v", merr)
+		}
+	}
+	for _, k := range keys {
+		v := reps[k]
+		total := totals[k]
 		rep, _, err := replayFresh(b.bin, v.ReplayPath, b.dir, sanitize(k))
 		if err != nil {
 			trouble("replay of %s failed to run: %v", v.ReplayPath, err)
